@@ -10,7 +10,12 @@ CHECK = {
                             "generic", "multiple", "half_multiple", "tiny", "limits", "mixed", "symmetric",
                             "res_dyadic", "res_decimal", "res_generic",
                             "axis_ge_1e5_cells", "float_axis_ge_5e5_cells",
-                            "axis_straddles_zero", "axis_negative_only", "axis_zero_width"],
+                            "axis_straddles_zero", "axis_negative_only", "axis_zero_width",
+                            "reassigned", "reassigned_from_fresh_temporary", "reassigned_from_source_with_indexes_used",
+                            "reassigned_from_source_with_centres_used", "reassigned_from_checked_source",
+                            "reassigned_by_move", "reassigned_twice", "reassigned_from_copy_of_itself",
+                            "reassigned_target_never_used", "reassigned_target_indexes_used",
+                            "reassigned_target_centres_used", "reassigned_target_fully_checked"],
     "required_oracles": ["in_bounds", "half_cell", "exact.half_cell", "centre_maps_to_own_index",
                          "spacing", "exact.spacing", "cover", "exact.cover", "cells_have_centres"],
     "required_counters": ["points_checked", "exact_regime_coordinates", "centres_mapped_back",
@@ -20,16 +25,21 @@ CHECK = {
             "interval whose axes are generic / exact multiples / half multiples of the resolution (computed in the scalar "
             "type or rounded from the real value) / narrower than one cell (zero width included) / pinned to -1e3 and/or "
             "+1e3 / mixed, placed uniformly, across zero, or at log-spaced distances from zero; per-axis cell counts from 1 "
-            "to 2e6 with the product kept <= 1e7; the grid is direct-, copy- or default-constructed-then-assigned; per grid "
+            "to 2e6 with the product kept <= 1e7; the mapping object is direct-, copy- or default-constructed-then-assigned, "
+            "and in 34 % of the cases re-used: after serving nothing / indexes only / centres only / all oracles it is "
+            "assigned a second, independently drawn configuration (from a never-queried temporary, from a source whose "
+            "indexes or centres were already used, from a fully checked source, by move, twice in a row, or from a copy of "
+            "itself) and all oracles run again on the same object against the new parameters; per grid "
             "60 (quick) / 100 (thorough) points of the closed extent: all corners, then per coordinate lo, hi, uniform, "
             "cell borders (table centre +- res/2), centres, k*res and (k+0.5)*res in scalar arithmetic and correctly "
             "rounded, log-spaced offsets 1e-8..2 res from a bound, lattice points (res/4)Z, each with 0..3 nextafter steps, "
             "clamped to the extent; plus 12 index tuples (first, last, alternating, random) mapped to centres and back, and "
             "all (<=200 cells) or 100 sampled consecutive centre pairs per axis; non-trivial = not (resolution 1 with "
             "integer bounds of magnitude <= 3), i.e. not the unit-resolution grid family of the unit tests",
-    "level_text": "exploration: the real GridIndexMapping<float|double, 2|3> is built for 4e4 (quick) / 2e6 (thorough) "
+    "level_text": "exploration: the real GridIndexMapping<float|double, 2|3> is built for 1.2e5 (quick) / 2e6 (thorough) "
                   "generated extents and resolutions and queried at 60/100 points each (corners, bounds, cell borders, "
-                  "centres, nextafter neighbours, random); the statement is evaluated on the returned indexes, centres "
+                  "centres, nextafter neighbours, random), a third of the objects being re-assigned a second configuration "
+                  "after use and checked again; the statement is evaluated on the returned indexes, centres "
                   "and counts in long double: index < count, |p - centre| <= res/2 (+16 eps S rounding allowance; zero "
                   "allowance when the resolution is a power of two and all operands lie on the res/4 lattice), centres "
                   "map back to their own indexes, consecutive centres differ by res (16 eps S; exactly in the lattice "
@@ -53,6 +63,8 @@ CHECK = {
                     "quotient is 3.5 eps S for the half-cell relation and 3 eps S for the spacing (tolerance 16 eps S for both)",
                     "bounds, resolution and points are values of the grid's scalar type; a float resolution 'in [1e-3,10]' "
                     "is the float nearest to the decimal (e.g. 0.001f = 0.00100000005)",
+                    "a mapping object that is assigned a new configuration must from then on satisfy the statement for the new "
+                    "extent and resolution, whatever it served before (object re-use is a configuration history, not a new property)",
                     "g++ 12 ASan+UBSan runtime; asserts live (no -DNDEBUG)"],
 }
 
